@@ -236,7 +236,7 @@ func (l *LightClientAttackEvidence) GetByzantineValidators(commonVals *Validator
 	// First check if the header is invalid. This means that it is a lunatic attack and therefore we take the
 	// validators who are in the commonVals and voted for the lunatic header
 	if l.ConflictingHeaderIsInvalid(trusted.Header) {
-		for _, commitSig := range l.ConflictingBlock.Commit.Signatures {
+		for idx, commitSig := range l.ConflictingBlock.Commit.Signatures {
 			if !commitSig.ForBlock() {
 				continue
 			}
@@ -244,6 +244,12 @@ func (l *LightClientAttackEvidence) GetByzantineValidators(commonVals *Validator
 			_, val := commonVals.GetByAddress(commitSig.ValidatorAddress)
 			if val == nil {
 				// validator wasn't in the common validator set
+				continue
+			}
+			// Commit verification stops once enough power is tallied and never looks
+			// at the address written into a slot: only a valid signature under the
+			// validator's own key shows that this validator voted for the header.
+			if !l.signedConflictingBlock(val, trusted.ChainID, idx) {
 				continue
 			}
 			validators = append(validators, val)
@@ -269,7 +275,14 @@ func (l *LightClientAttackEvidence) GetByzantineValidators(commonVals *Validator
 				continue
 			}
 
+			// The conflicting set has the validators hash of the trusted header, which
+			// covers keys and powers but not the addresses the evidence gives: the
+			// address must be the key's own, and the key must have signed this slot.
 			_, val := l.ConflictingBlock.ValidatorSet.GetByAddress(sigA.ValidatorAddress)
+			if val == nil || !bytes.Equal(val.PubKey.Address(), sigA.ValidatorAddress) ||
+				!l.signedConflictingBlock(val, trusted.ChainID, i) {
+				continue
+			}
 			validators = append(validators, val)
 		}
 		sort.Sort(ValidatorsByVotingPower(validators))
@@ -279,6 +292,13 @@ func (l *LightClientAttackEvidence) GetByzantineValidators(commonVals *Validator
 	// we aren't able yet to deduce which are malicious validators and which are not hence we return an
 	// empty validator set.
 	return validators
+}
+
+// signedConflictingBlock reports whether slot idx of the conflicting commit carries
+// a valid signature of val for the conflicting block.
+func (l *LightClientAttackEvidence) signedConflictingBlock(val *Validator, chainID string, idx int) bool {
+	commit := l.ConflictingBlock.Commit
+	return val.PubKey.VerifySignature(commit.VoteSignBytes(chainID, int32(idx)), commit.Signatures[idx].Signature)
 }
 
 // ConflictingHeaderIsInvalid takes a trusted header and matches it againt a conflicting header
